@@ -5,7 +5,8 @@ proof:  Props/PEXEC.v.  Model/PandasExec.v transcribes every `_*_step` of data_a
         order, exactly what holds is stated there), no scratch column survives, the chosen scratch names never capture a user
         column, shared non-key join columns are coalesced left-first.
 tie:    (a) whole pipelines: pexec inside Coq vs the REAL ops.eval on Pandas -- same columns in the same order, same rows in the same
-            order; declared_cols vs ops.column_names;
+            order (as a multiset where pandas' choice is not a function of the arguments: tied single-key sorts, INNER merges);
+            declared_cols vs ops.column_names;
         (b) primitives: each modelled pandas call (df[c]=, del, df[cs], mask, rename, sort_values, concat, merge, groupby.agg /
             transform / cumcount / size, isnull, isnull().any(axis=1), .loc[mask, c] = ...) run on random small frames vs Model/PdPrim.v inside Coq;
         (c) syntactic: the scratch-name base strings and the pandas calls of every `_*_step`, extracted from pandas_base.py with
@@ -994,7 +995,7 @@ def run(chk):
     chk.cov["trusted_base"] = [
         "Coq 8.16.1 kernel + vm_compute",
         "hand models of the pandas primitives, Model/PdPrim.v (column assignment / deletion / selection, mask, rename, sort_values as ANY sorted "
-        "permutation, concat, merge incl. its row and column order and NaN-keys-match, groupby agg / transform / cumcount / size with dropna, isnull, isnull().any(axis=1), "
+        "permutation, concat, merge incl. its column order, its row order (left / right / outer; the rows of an INNER merge in ANY order) and NaN-keys-match, groupby agg / transform / cumcount / size with dropna, isnull, isnull().any(axis=1), "
         ".loc assignment): modelled, not verified; each is run against real pandas on random frames on every run",
         "scalar expressions (act_on / impl_map) are NOT transcribed: Sem.eval_expr fl_pandas per row (tied by C01/C05's correspondences); "
         "window and aggregate FUNCTIONS are Sem.win_fn / agg_fn fl_pandas (tied by C27 and by the primitive cases here)",
